@@ -205,10 +205,10 @@ namespace EdbVerif.Desc
 macro "hok_simp" h:ident : tactic => `(tactic|
   simp only [hdrOK, Bool.and_eq_true, Bool.or_eq_true, beq_iff_eq, decide_eq_true_eq, and_assoc] at $h:ident)
 
-theorem pk_set (p : Proto) (id : Id) (m) (pre post : List Nat) (rest : Bytes)
+theorem pk_set (md : Mode) (p : Proto) (id : Id) (m) (pre post : List Nat) (rest : Bytes)
     (hok : hdrOK p ⟨.set, id, m⟩ pre.length post.length = true)
     (hpre : ∀ r ∈ pre, r < 65536) :
-    parseKind p 0 id (kindBytes p ⟨⟨.set, id, m⟩, pre, post⟩ ++ rest)
+    parseKind md p 0 id (kindBytes p ⟨⟨.set, id, m⟩, pre, post⟩ ++ rest)
       = some ((⟨⟨.set, id, m⟩, pre, post⟩, chkOf p ⟨⟨.set, id, m⟩, pre, post⟩), rest) := by
   hok_simp hok
   obtain ⟨_, _, _, hm, h1, h0⟩ := hok
@@ -220,9 +220,9 @@ theorem pk_set (p : Proto) (id : Id) (m) (pre post : List Nat) (rest : Bytes)
   rw [bnd_eq (rdU16_u16 _ _ hx)]
   cases p <;> rfl
 
-theorem pk_bscalar (p : Proto) (id : Id) (m) (pre post : List Nat) (rest : Bytes)
+theorem pk_bscalar (md : Mode) (p : Proto) (id : Id) (m) (pre post : List Nat) (rest : Bytes)
     (hok : hdrOK p ⟨.baseScalar, id, m⟩ pre.length post.length = true) :
-    parseKind p 2 id (kindBytes p ⟨⟨.baseScalar, id, m⟩, pre, post⟩ ++ rest)
+    parseKind md p 2 id (kindBytes p ⟨⟨.baseScalar, id, m⟩, pre, post⟩ ++ rest)
       = some ((⟨⟨.baseScalar, id, m⟩, pre, post⟩, chkOf p ⟨⟨.baseScalar, id, m⟩, pre, post⟩), rest) := by
   hok_simp hok
   obtain ⟨_, _, _, hp, hm, h1, h0⟩ := hok
@@ -232,10 +232,10 @@ theorem pk_bscalar (p : Proto) (id : Id) (m) (pre post : List Nat) (rest : Bytes
   subst hp
   rfl
 
-theorem pk_scalar (p : Proto) (id : Id) (m) (pre post : List Nat) (rest : Bytes)
+theorem pk_scalar (md : Mode) (p : Proto) (id : Id) (m) (pre post : List Nat) (rest : Bytes)
     (hok : hdrOK p ⟨.scalar, id, m⟩ pre.length post.length = true)
     (hpost : ∀ r ∈ post, r < 65536) :
-    parseKind p 3 id (kindBytes p ⟨⟨.scalar, id, m⟩, pre, post⟩ ++ rest)
+    parseKind md p 3 id (kindBytes p ⟨⟨.scalar, id, m⟩, pre, post⟩ ++ rest)
       = some ((⟨⟨.scalar, id, m⟩, pre, post⟩, chkOf p ⟨⟨.scalar, id, m⟩, pre, post⟩), rest) := by
   hok_simp hok
   obtain ⟨_, _, hl, hm, h1, h0⟩ := hok
@@ -255,10 +255,10 @@ theorem pk_scalar (p : Proto) (id : Id) (m) (pre post : List Nat) (rest : Bytes)
     rw [bnd_eq (rdU16_u16 _ _ hx)]
     rfl
 
-theorem pk_tuple (p : Proto) (id : Id) (m) (pre post : List Nat) (rest : Bytes)
+theorem pk_tuple (md : Mode) (p : Proto) (id : Id) (m) (pre post : List Nat) (rest : Bytes)
     (hok : hdrOK p ⟨.tuple, id, m⟩ pre.length post.length = true)
     (hpre : ∀ r ∈ pre, r < 65536) (hpost : ∀ r ∈ post, r < 65536) :
-    parseKind p 4 id (kindBytes p ⟨⟨.tuple, id, m⟩, pre, post⟩ ++ rest)
+    parseKind md p 4 id (kindBytes p ⟨⟨.tuple, id, m⟩, pre, post⟩ ++ rest)
       = some ((⟨⟨.tuple, id, m⟩, pre, post⟩, chkOf p ⟨⟨.tuple, id, m⟩, pre, post⟩), rest) := by
   hok_simp hok
   obtain ⟨_, hlp, hl, hm, hv⟩ := hok
@@ -269,10 +269,10 @@ end EdbVerif.Desc
 
 namespace EdbVerif.Desc
 
-theorem pk_ntuple (p : Proto) (id : Id) (m) (names) (pre post : List Nat) (rest : Bytes)
+theorem pk_ntuple (md : Mode) (p : Proto) (id : Id) (m) (names) (pre post : List Nat) (rest : Bytes)
     (hok : hdrOK p ⟨.namedTuple names, id, m⟩ pre.length post.length = true)
     (hpre : ∀ r ∈ pre, r < 65536) (hpost : ∀ r ∈ post, r < 65536) :
-    parseKind p 5 id (kindBytes p ⟨⟨.namedTuple names, id, m⟩, pre, post⟩ ++ rest)
+    parseKind md p 5 id (kindBytes p ⟨⟨.namedTuple names, id, m⟩, pre, post⟩ ++ rest)
       = some ((⟨⟨.namedTuple names, id, m⟩, pre, post⟩,
                chkOf p ⟨⟨.namedTuple names, id, m⟩, pre, post⟩), rest) := by
   hok_simp hok
@@ -292,10 +292,10 @@ theorem pk_ntuple (p : Proto) (id : Id) (m) (names) (pre post : List Nat) (rest 
 theorem i32_neg1 : i32 (-1) = u32 4294967295 := by decide
 theorem i32ToInt_max : i32ToInt 4294967295 = -1 := by decide
 
-theorem pk_array (p : Proto) (id : Id) (m) (dims) (pre post : List Nat) (rest : Bytes)
+theorem pk_array (md : Mode) (p : Proto) (id : Id) (m) (dims) (pre post : List Nat) (rest : Bytes)
     (hok : hdrOK p ⟨.array dims, id, m⟩ pre.length post.length = true)
     (hpre : ∀ r ∈ pre, r < 65536) (hpost : ∀ r ∈ post, r < 65536) :
-    parseKind p 6 id (kindBytes p ⟨⟨.array dims, id, m⟩, pre, post⟩ ++ rest)
+    parseKind md p 6 id (kindBytes p ⟨⟨.array dims, id, m⟩, pre, post⟩ ++ rest)
       = some ((⟨⟨.array dims, id, m⟩, pre, post⟩,
                chkOf p ⟨⟨.array dims, id, m⟩, pre, post⟩), rest) := by
   hok_simp hok
@@ -313,10 +313,10 @@ theorem pk_array (p : Proto) (id : Id) (m) (dims) (pre post : List Nat) (rest : 
   simp only [i32ToInt_max, not_true_eq_false, reduceIte]
   cases p <;> rfl
 
-theorem pk_range (p : Proto) (id : Id) (m) (pre post : List Nat) (rest : Bytes)
+theorem pk_range (md : Mode) (p : Proto) (id : Id) (m) (pre post : List Nat) (rest : Bytes)
     (hok : hdrOK p ⟨.range, id, m⟩ pre.length post.length = true)
     (hpre : ∀ r ∈ pre, r < 65536) (hpost : ∀ r ∈ post, r < 65536) :
-    parseKind p 9 id (kindBytes p ⟨⟨.range, id, m⟩, pre, post⟩ ++ rest)
+    parseKind md p 9 id (kindBytes p ⟨⟨.range, id, m⟩, pre, post⟩ ++ rest)
       = some ((⟨⟨.range, id, m⟩, pre, post⟩, chkOf p ⟨⟨.range, id, m⟩, pre, post⟩), rest) := by
   hok_simp hok
   obtain ⟨_, _, hl, hm, hv, h1⟩ := hok
@@ -327,10 +327,10 @@ theorem pk_range (p : Proto) (id : Id) (m) (pre post : List Nat) (rest : Bytes)
   rw [bnd_eq (rdMetaAnc_metaAnc p m post _ hm hv hl hpost), bnd_eq (rdU16_u16 _ _ hx)]
   cases p <;> rfl
 
-theorem pk_mrange (p : Proto) (id : Id) (m) (pre post : List Nat) (rest : Bytes)
+theorem pk_mrange (md : Mode) (p : Proto) (id : Id) (m) (pre post : List Nat) (rest : Bytes)
     (hok : hdrOK p ⟨.multirange, id, m⟩ pre.length post.length = true)
     (hpre : ∀ r ∈ pre, r < 65536) (hpost : ∀ r ∈ post, r < 65536) :
-    parseKind p 12 id (kindBytes p ⟨⟨.multirange, id, m⟩, pre, post⟩ ++ rest)
+    parseKind md p 12 id (kindBytes p ⟨⟨.multirange, id, m⟩, pre, post⟩ ++ rest)
       = some ((⟨⟨.multirange, id, m⟩, pre, post⟩,
                chkOf p ⟨⟨.multirange, id, m⟩, pre, post⟩), rest) := by
   hok_simp hok
@@ -342,10 +342,10 @@ theorem pk_mrange (p : Proto) (id : Id) (m) (pre post : List Nat) (rest : Bytes)
   rw [bnd_eq (rdMetaAnc_metaAnc p m post _ hm hv hl hpost), bnd_eq (rdU16_u16 _ _ hx)]
   cases p <;> rfl
 
-theorem pk_enum (p : Proto) (id : Id) (m) (mem) (pre post : List Nat) (rest : Bytes)
+theorem pk_enum (md : Mode) (p : Proto) (id : Id) (m) (mem) (pre post : List Nat) (rest : Bytes)
     (hok : hdrOK p ⟨.enum mem, id, m⟩ pre.length post.length = true)
     (hpost : ∀ r ∈ post, r < 65536) :
-    parseKind p 7 id (kindBytes p ⟨⟨.enum mem, id, m⟩, pre, post⟩ ++ rest)
+    parseKind md p 7 id (kindBytes p ⟨⟨.enum mem, id, m⟩, pre, post⟩ ++ rest)
       = some ((⟨⟨.enum mem, id, m⟩, pre, post⟩, chkOf p ⟨⟨.enum mem, id, m⟩, pre, post⟩), rest) := by
   hok_simp hok
   obtain ⟨_, _, hl, hm, hv, h0, hml, hma⟩ := hok
@@ -355,9 +355,9 @@ theorem pk_enum (p : Proto) (id : Id) (m) (mem) (pre post : List Nat) (rest : By
     bnd_eq (rdMany_str mem rest (all_len hma))]
   cases p <;> rfl
 
-theorem pk_object (p : Proto) (id : Id) (m) (pre post : List Nat) (rest : Bytes)
+theorem pk_object (md : Mode) (p : Proto) (id : Id) (m) (pre post : List Nat) (rest : Bytes)
     (hok : hdrOK p ⟨.object, id, m⟩ pre.length post.length = true) :
-    parseKind p 10 id (kindBytes p ⟨⟨.object, id, m⟩, pre, post⟩ ++ rest)
+    parseKind md p 10 id (kindBytes p ⟨⟨.object, id, m⟩, pre, post⟩ ++ rest)
       = some ((⟨⟨.object, id, m⟩, pre, post⟩, chkOf p ⟨⟨.object, id, m⟩, pre, post⟩), rest) := by
   hok_simp hok
   obtain ⟨_, _, _, hp, hm, h1, h0⟩ := hok
@@ -370,10 +370,10 @@ theorem pk_object (p : Proto) (id : Id) (m) (pre post : List Nat) (rest : Bytes)
   rw [bnd_eq (rdStr_str _ _ hx), bnd_eq (rdBool_bool _ _)]
   rfl
 
-theorem pk_compound (p : Proto) (id : Id) (m) (op) (pre post : List Nat) (rest : Bytes)
+theorem pk_compound (md : Mode) (p : Proto) (id : Id) (m) (op) (pre post : List Nat) (rest : Bytes)
     (hok : hdrOK p ⟨.compound op, id, m⟩ pre.length post.length = true)
     (hpost : ∀ r ∈ post, r < 65536) :
-    parseKind p 11 id (kindBytes p ⟨⟨.compound op, id, m⟩, pre, post⟩ ++ rest)
+    parseKind md p 11 id (kindBytes p ⟨⟨.compound op, id, m⟩, pre, post⟩ ++ rest)
       = some ((⟨⟨.compound op, id, m⟩, pre, post⟩,
                chkOf p ⟨⟨.compound op, id, m⟩, pre, post⟩), rest) := by
   hok_simp hok
@@ -395,10 +395,10 @@ namespace EdbVerif.Desc
 theorem mem_replicate0 {n x : Nat} (h : x ∈ List.replicate n 0) : x = 0 :=
   (List.mem_replicate.mp h).2
 
-theorem pk_ishape (p : Proto) (id : Id) (m) (els) (pre post : List Nat) (rest : Bytes)
+theorem pk_ishape (md : Mode) (p : Proto) (id : Id) (m) (els) (pre post : List Nat) (rest : Bytes)
     (hok : hdrOK p ⟨.inputShape els, id, m⟩ pre.length post.length = true)
     (hpre : ∀ r ∈ pre, r < 65536) :
-    parseKind p 8 id (kindBytes p ⟨⟨.inputShape els, id, m⟩, pre, post⟩ ++ rest)
+    parseKind md p 8 id (kindBytes p ⟨⟨.inputShape els, id, m⟩, pre, post⟩ ++ rest)
       = some ((⟨⟨.inputShape els, id, m⟩, pre, post⟩,
                chkOf p ⟨⟨.inputShape els, id, m⟩, pre, post⟩), rest) := by
   hok_simp hok
@@ -419,10 +419,10 @@ theorem pk_ishape (p : Proto) (id : Id) (m) (els) (pre post : List Nat) (rest : 
   simp only [ret, zip3_map1 _ _ _ hn hr, zip3_map2 _ _ _ hn hr]
   cases p <;> rfl
 
-theorem pk_shape_v1 (id : Id) (m) (eph) (els) (pre post : List Nat) (rest : Bytes)
+theorem pk_shape_v1 (md : Mode) (id : Id) (m) (eph) (els) (pre post : List Nat) (rest : Bytes)
     (hok : hdrOK .v1 ⟨.shape eph els, id, m⟩ pre.length post.length = true)
     (hpre : ∀ r ∈ pre, r < 65536) :
-    parseKind .v1 1 id (kindBytes .v1 ⟨⟨.shape eph els, id, m⟩, pre, post⟩ ++ rest)
+    parseKind md .v1 1 id (kindBytes .v1 ⟨⟨.shape eph els, id, m⟩, pre, post⟩ ++ rest)
       = some ((⟨⟨.shape eph els, id, m⟩, pre, post⟩,
                chkOf .v1 ⟨⟨.shape eph els, id, m⟩, pre, post⟩), rest) := by
   hok_simp hok
@@ -445,10 +445,10 @@ theorem pk_shape_v1 (id : Id) (m) (eph) (els) (pre post : List Nat) (rest : Byte
   simp only [ret, zip3_map1 _ _ _ hn hr, zip3_map2 _ _ _ hn hr]
   rfl
 
-theorem pk_shape_v2_eph (id : Id) (m) (els) (pre post : List Nat) (rest : Bytes)
+theorem pk_shape_v2_eph (md : Mode) (id : Id) (m) (els) (pre post : List Nat) (rest : Bytes)
     (hok : hdrOK .v2 ⟨.shape true els, id, m⟩ pre.length post.length = true)
     (hpre : ∀ r ∈ pre, r < 65536) :
-    parseKind .v2 1 id (kindBytes .v2 ⟨⟨.shape true els, id, m⟩, pre, post⟩ ++ rest)
+    parseKind md .v2 1 id (kindBytes .v2 ⟨⟨.shape true els, id, m⟩, pre, post⟩ ++ rest)
       = some ((⟨⟨.shape true els, id, m⟩, pre, post⟩,
                chkOf .v2 ⟨⟨.shape true els, id, m⟩, pre, post⟩), rest) := by
   hok_simp hok
@@ -470,10 +470,10 @@ theorem pk_shape_v2_eph (id : Id) (m) (els) (pre post : List Nat) (rest : Bytes)
   simp only [ret, reduceIte, zip3_map1 _ _ _ hn hr, zip3_map2 _ _ _ hn hr, zip3_map3 _ _ _ hn hr]
   rfl
 
-theorem pk_shape_v2_ne (id : Id) (m) (els) (pre post : List Nat) (rest : Bytes)
+theorem pk_shape_v2_ne (md : Mode) (id : Id) (m) (els) (pre post : List Nat) (rest : Bytes)
     (hok : hdrOK .v2 ⟨.shape false els, id, m⟩ pre.length post.length = true)
     (hpre : ∀ r ∈ pre, r < 65536) (hpost : ∀ r ∈ post, r < 65536) :
-    parseKind .v2 1 id (kindBytes .v2 ⟨⟨.shape false els, id, m⟩, pre, post⟩ ++ rest)
+    parseKind md .v2 1 id (kindBytes .v2 ⟨⟨.shape false els, id, m⟩, pre, post⟩ ++ rest)
       = some ((⟨⟨.shape false els, id, m⟩, pre, post⟩,
                chkOf .v2 ⟨⟨.shape false els, id, m⟩, pre, post⟩), rest) := by
   hok_simp hok
@@ -503,33 +503,58 @@ namespace EdbVerif.Desc
 theorem Kind.tag_lt (k : Kind) : k.tag < 128 := by cases k <;> simp [Kind.tag]
 
 /-- reading back what follows tag and id of one block -/
-theorem parseKind_kindBytes (p : Proto) (f : Flat) (rest : Bytes)
+theorem pk_sqlrow (p : Proto) (id : Id) (mt) (names) (pre post : List Nat) (rest : Bytes)
+    (hok : hdrOK p ⟨.sqlRow names, id, mt⟩ pre.length post.length = true)
+    (hpre : ∀ r ∈ pre, r < 65536) :
+    parseKind .doc p 13 id (kindBytes p ⟨⟨.sqlRow names, id, mt⟩, pre, post⟩ ++ rest)
+      = some ((⟨⟨.sqlRow names, id, mt⟩, pre, post⟩,
+               chkOf p ⟨⟨.sqlRow names, id, mt⟩, pre, post⟩), rest) := by
+  hok_simp hok
+  obtain ⟨_, hlp, _, hm, hn, hnl, h0⟩ := hok
+  have := List.eq_nil_of_length_eq_zero h0; subst this
+  have := isNone_eq hm; subst this
+  have hnl := all_len hnl
+  simp only [parseKind, kindBytes, reduceIte, Nat.reduceEqDiff, List.append_assoc, reduceCtorEq]
+  have hz : (names.zip pre).length = pre.length := by simp [List.length_zip, hn]
+  rw [bnd_eq (rdU16_u16 _ _ hlp),
+    bnd_eq (rdMany_flatMap' rdNameRef nameRefB (names.zip pre) pre.length hz
+      (fun x hx r => by
+        obtain ⟨nm, t⟩ := x
+        have := List.of_mem_zip hx
+        exact rdNameRef_nameRefB nm t r (hnl nm this.1) (hpre t this.2)) rest)]
+  simp only [ret, List.map_fst_zip (Nat.le_of_eq hn), List.map_snd_zip (Nat.le_of_eq hn.symm)]
+  cases p <;> rfl
+
+theorem parseKind_kindBytes (md : Mode) (p : Proto) (f : Flat) (rest : Bytes)
     (hok : hdrOK p f.h f.pre.length f.post.length = true)
-    (hsql : ∀ n, f.h.kind ≠ .sqlRow n)
+    (hsql : md = .doc ∨ ∀ n, f.h.kind ≠ .sqlRow n)
     (hpre : ∀ r ∈ f.pre, r < 65536) (hpost : ∀ r ∈ f.post, r < 65536) :
-    parseKind p f.h.kind.tag f.h.id (kindBytes p f ++ rest) = some ((f, chkOf p f), rest) := by
+    parseKind md p f.h.kind.tag f.h.id (kindBytes p f ++ rest) = some ((f, chkOf p f), rest) := by
   obtain ⟨⟨kind, id, m⟩, pre, post⟩ := f
   cases kind with
-  | set => exact pk_set p id m pre post rest hok hpre
-  | baseScalar => exact pk_bscalar p id m pre post rest hok
-  | scalar => exact pk_scalar p id m pre post rest hok hpost
-  | tuple => exact pk_tuple p id m pre post rest hok hpre hpost
-  | namedTuple names => exact pk_ntuple p id m names pre post rest hok hpre hpost
-  | array dims => exact pk_array p id m dims pre post rest hok hpre hpost
-  | range => exact pk_range p id m pre post rest hok hpre hpost
-  | multirange => exact pk_mrange p id m pre post rest hok hpre hpost
-  | enum mem => exact pk_enum p id m mem pre post rest hok hpost
-  | object => exact pk_object p id m pre post rest hok
-  | compound op => exact pk_compound p id m op pre post rest hok hpost
-  | inputShape els => exact pk_ishape p id m els pre post rest hok hpre
-  | sqlRow n => exact absurd rfl (hsql n)
+  | set => exact pk_set md p id m pre post rest hok hpre
+  | baseScalar => exact pk_bscalar md p id m pre post rest hok
+  | scalar => exact pk_scalar md p id m pre post rest hok hpost
+  | tuple => exact pk_tuple md p id m pre post rest hok hpre hpost
+  | namedTuple names => exact pk_ntuple md p id m names pre post rest hok hpre hpost
+  | array dims => exact pk_array md p id m dims pre post rest hok hpre hpost
+  | range => exact pk_range md p id m pre post rest hok hpre hpost
+  | multirange => exact pk_mrange md p id m pre post rest hok hpre hpost
+  | enum mem => exact pk_enum md p id m mem pre post rest hok hpost
+  | object => exact pk_object md p id m pre post rest hok
+  | compound op => exact pk_compound md p id m op pre post rest hok hpost
+  | inputShape els => exact pk_ishape md p id m els pre post rest hok hpre
+  | sqlRow n =>
+    rcases hsql with rfl | hsql
+    · exact pk_sqlrow p id m n pre post rest hok hpre
+    · exact absurd rfl (hsql n)
   | shape eph els =>
     cases p with
-    | v1 => exact pk_shape_v1 id m eph els pre post rest hok hpre
+    | v1 => exact pk_shape_v1 md id m eph els pre post rest hok hpre
     | v2 =>
       cases eph with
-      | true => exact pk_shape_v2_eph id m els pre post rest hok hpre
-      | false => exact pk_shape_v2_ne id m els pre post rest hok hpre hpost
+      | true => exact pk_shape_v2_eph md id m els pre post rest hok hpre
+      | false => exact pk_shape_v2_ne md id m els pre post rest hok hpre hpost
 
 theorem hdrOK_id {p : Proto} {h : Hdr} {a b : Nat} (hok : hdrOK p h a b = true) :
     h.id.length = 16 := by
@@ -537,14 +562,14 @@ theorem hdrOK_id {p : Proto} {h : Hdr} {a b : Nat} (hok : hdrOK p h a b = true) 
   exact hok.1
 
 /-- **one block round-trips and the reader stops exactly at its end** -/
-theorem parseFlat_block (p : Proto) (f : Flat) (rest : Bytes)
+theorem parseFlat_block (m : Mode) (p : Proto) (f : Flat) (rest : Bytes)
     (hok : hdrOK p f.h f.pre.length f.post.length = true)
-    (hsql : ∀ n, f.h.kind ≠ .sqlRow n)
+    (hsql : m = .doc ∨ ∀ n, f.h.kind ≠ .sqlRow n)
     (hpre : ∀ r ∈ f.pre, r < 65536) (hpost : ∀ r ∈ f.post, r < 65536) :
-    parseFlat p (block p f ++ rest) = some (some (f, chkOf p f), rest) := by
+    parseFlat m p (block p f ++ rest) = some (.desc f (chkOf p f), rest) := by
   have hid := hdrOK_id hok
   have ht : ¬ 128 ≤ f.h.kind.tag := by have := Kind.tag_lt f.h.kind; omega
-  have hk := parseKind_kindBytes p f rest hok hsql hpre hpost
+  have hk := parseKind_kindBytes m p f rest hok hsql hpre hpost
   cases p with
   | v1 =>
     unfold parseFlat block body
